@@ -228,7 +228,7 @@ def build(ctx, case):
         rx = r.sample(sorted(REACTANTS), r.randint(1, 3))
         coefs = [r.choice([1, 1, 0.5, 2]) for _ in rx]
         incr = r.random() < 0.4
-        style = r.choice(["single", "insteps", "list"]) if mode == "usesave" else "single"
+        style = r.choice(["single", "insteps", "list"]) if mode == "usesave" else r.choice(["single", "single", "insteps", "list"])      # RUN_CELLS walks through the steps too and saves the last one
         if style == "single":
             amt = gens.loguni(r, 1e-5, 5e-3)
             stp, total = "%s mol" % f(amt), float(f(amt))
